@@ -30,6 +30,11 @@ def ops_alphabet():
     for g in (G("CNOT"), G("CPHASE", 0.3), W("controlled", G("X"), k=1), G("custom2"), G("customsym2"), W("controlled", G("RY", "s:theta"), k=1)):
         A += [{"gate": g, "q": list(p)} for p in ((0, 1), (2, 0), (1, 2))]
     A.append({"gate": W("exp", G("RZ", 0.3)), "q": [1]})
+    # second members of each wrapper kind with EQUAL parameters (wrapper names alone do not identify a gate): c-Z next to c-X, S.dagger next to T.dagger, ...
+    A += [{"gate": W("controlled", G("Z"), k=1), "q": list(p)} for p in ((0, 1), (2, 0), (1, 2))]
+    A += [{"gate": W("dagger", G("S")), "q": [q]} for q in (0, 2)] + [{"gate": W("power", G("S"), e=3), "q": [q]} for q in (0, 2)]
+    A.append({"gate": W("exp", G("RX", 0.3)), "q": [1]})
+    A.append({"gate": W("controlled", G("X"), k=2), "q": [2, 0, 1]})
     return A
 
 
